@@ -6,6 +6,7 @@ package gen
 import (
 	"encoding/json"
 	"fmt"
+	"strconv"
 	"strings"
 
 	"verif/harness/lib"
@@ -35,6 +36,33 @@ var Patterns = []Pat{
 	{"é", []string{"é", "aéb"}, []string{"e", "", "E"}},
 	{"^(foo|bar)$", []string{"foo", "bar"}, []string{"foobar", "fo", ""}},
 	{"^[^.]+$", []string{"a", "ab", "x-1"}, []string{"a.b", "", "."}},
+}
+
+// PatternVariant returns the k-th variant of a pattern of the pool: the same expression with one more alternative
+// (`|q<k>`) which none of the Yes / No strings contains, so it matches exactly what the base pattern matches on
+// them.  Variants make the number of DISTINCT patterns a process compiles grow into the hundreds (caches with a
+// bound, eviction, first-use order) without changing any verdict.
+func PatternVariant(p string, k int) string { return fmt.Sprintf("%s|q%d", p, k) }
+
+// BasePattern strips the variant suffix.
+func BasePattern(p string) string {
+	if i := strings.LastIndex(p, "|q"); i > 0 {
+		if _, err := strconv.Atoi(p[i+2:]); err == nil {
+			return p[:i]
+		}
+	}
+	return p
+}
+
+// pickPattern draws a pattern of the pool, one time in three as one of 400 variants (pickPatternP: other shares).
+func pickPattern(r *lib.Rand) string { return pickPatternP(r, 0.33, 400) }
+
+func pickPatternP(r *lib.Rand, share float64, variants int) string {
+	p := Patterns[r.Intn(len(Patterns))].P
+	if r.P(share) {
+		return PatternVariant(p, r.Intn(variants))
+	}
+	return p
 }
 
 // Format examples (formats known to strfmt.Default).
@@ -238,7 +266,7 @@ func (g *SchemaGen) stringSchema() map[string]any {
 		g.feat("length")
 	}
 	if g.R.P(0.35) {
-		s["pattern"] = Patterns[g.R.Intn(len(Patterns))].P
+		s["pattern"] = pickPattern(g.R)
 		g.feat("pattern")
 	}
 	if g.R.P(0.2) {
@@ -326,7 +354,7 @@ func (g *SchemaGen) objectSchema(depth int) map[string]any {
 	if g.R.P(0.35) {
 		pp := map[string]any{}
 		for i, n := 0, g.R.Range(1, 2); i < n; i++ {
-			pp[Patterns[g.R.Intn(len(Patterns))].P] = g.Schema(depth + 1)
+			pp[pickPattern(g.R)] = g.Schema(depth + 1)
 		}
 		s["patternProperties"] = pp
 		g.feat("patternProperties")
